@@ -949,6 +949,71 @@ func main() {
 		w("Definition error_filter_cases : list (list Z) := [%s]. (* %s *)", strings.Join(mapStr(conds, bstr), "; "), strings.Join(conds, " | "))
 	}
 	writeIfChanged(filepath.Join(gen, "Structure.v"), s.Bytes())
+
+	// ---------- Source.v: the text of the functions whose model is a hand-written reading ----------
+	// (logging calls and comments removed, white space collapsed).  Proofs/SourcePins.v compares each with the
+	// committed snapshot the model was written and validated against (theories/Spec/SourceSnapshot.v).
+	{
+		var b bytes.Buffer
+		b.WriteString("(* GENERATED by gosync from /repo - do not edit.  Normalised source text of the streamer core. *)\n")
+		b.WriteString("From Coq Require Import List ZArith.\nImport ListNotations.\nOpen Scope Z_scope.\n\n")
+		emit := func(name string, n ast.Node) {
+			if n == nil {
+				die("source pin: %s not found", name)
+			}
+			txt := normSrc(gp, n)
+			fmt.Fprintf(&b, "(* %s: %d bytes of normalised source *)\nDefinition src_%s : list Z := %s.\n\n", name, len(txt), name, bstr(txt))
+		}
+		fn := func(name string) ast.Node {
+			if fd := gp.funcDecl(name); fd != nil {
+				return fd
+			}
+			return nil
+		}
+		me := func(recv, name string) ast.Node {
+			if fd := gp.methodDecl(recv, name); fd != nil {
+				return fd
+			}
+			return nil
+		}
+		emit("Stream", me("Streamer", "Stream"))
+		emit("Error", me("Streamer", "Error"))
+		emit("parseEvents", me("Streamer", "parseEvents"))
+		emit("getValuesFromRow", fn("getValuesFromRow"))
+		emit("getIdentifiesFromRow", fn("getIdentifiesFromRow"))
+		emit("appendInsertEventFromRows", fn("appendInsertEventFromRows"))
+		emit("appendUpdateEventFromRows", fn("appendUpdateEventFromRows"))
+		emit("appendDeleteEventFromRows", fn("appendDeleteEventFromRows"))
+		emit("newSlaveConnection", fn("newSlaveConnection"))
+		emit("slaveConnection_close", me("slaveConnection", "close"))
+		emit("prepareForReplication", me("slaveConnection", "prepareForReplication"))
+		emit("startDumpFromBinlogPosition", me("slaveConnection", "startDumpFromBinlogPosition"))
+		emit("readBinlogEvent", me("slaveConnection", "readBinlogEvent"))
+		emit("GetStatementCategory", fn("GetStatementCategory"))
+		emit("newTransaction", fn("newTransaction"))
+		emit("newStreamEvent", fn("newStreamEvent"))
+		emit("newColumnData", fn("newColumnData"))
+		emit("Transaction_MarshalJSON", me("Transaction", "MarshalJSON"))
+		emit("StreamEvent_MarshalJSON", me("StreamEvent", "MarshalJSON"))
+		emit("ColumnData_MarshalJSON", me("ColumnData", "MarshalJSON"))
+		// every method of the root package, as "Type.Method" (a new MarshalJSON / String method changes how values
+		// are serialised without touching the functions above)
+		var ms []string
+		for _, fname := range gp.sortedFiles() {
+			for _, d := range gp.files[fname].Decls {
+				if fd, ok := d.(*ast.FuncDecl); ok && fd.Recv != nil && len(fd.Recv.List) > 0 {
+					rt := fd.Recv.List[0].Type
+					if st, ok := rt.(*ast.StarExpr); ok {
+						rt = st.X
+					}
+					ms = append(ms, gp.exprString(rt)+"."+fd.Name.Name)
+				}
+			}
+		}
+		sort.Strings(ms)
+		fmt.Fprintf(&b, "(* %s *)\nDefinition root_methods : list (list Z) := [%s].\n", strings.ReplaceAll(strings.Join(ms, " "), "*", ""), strings.Join(mapStr(ms, bstr), "; "))
+		writeIfChanged(filepath.Join(gen, "Source.v"), b.Bytes())
+	}
 }
 
 // normSrc prints a statement with the logging calls (_log.Xxx(...)) removed and white space collapsed.
